@@ -66,9 +66,9 @@ func eqCMS(redis bool) eqKind {
 	if redis {
 		name = "cms.redis"
 	}
-	dims := [][2]uint{{3, 5}, {3, 6}, {4, 5}}
+	dims := [][2]uint{{3, 5}, {3, 6}, {4, 5}, {12, 4}} // the last one: more rows than one decimal digit counts
 	return eqKind{
-		name: name, redis: redis, nparams: 2,
+		name: name, redis: redis, nparams: 3,
 		build: func(c *Ctx, v int) interface{} { h, _ := newCMS(dims[v][0], dims[v][1], redis); return h },
 		feed: func(c *Ctx, o interface{}, ops []int) {
 			for _, j := range ops {
@@ -273,9 +273,10 @@ func eqCuckoo(redis bool) eqKind {
 		{n: 2, b: 8, fpl: 3, retries: 10},
 		{n: 2, b: 4, fpl: 4, retries: 10},
 		{n: 2, b: 4, fpl: 3, retries: 11},
+		{n: 2, b: 12, fpl: 3, retries: 10}, // two-digit bucket size
 	}
 	return eqKind{
-		name: name, redis: redis, nparams: 4,
+		name: name, redis: redis, nparams: 5,
 		build: func(c *Ctx, v int) interface{} {
 			cfg := cfgs[v]
 			cfg.redis = redis
@@ -469,6 +470,23 @@ func equalsBuiltByMerge(c *Ctx, k eqKind) {
 	k.feed(c, twin, h1)
 	k.feed(c, twin, h2)
 	eqCheck(c, k, a, twin, "built-by-merge", append(append([]int(nil), h1...), h2...))
+	// two sketches that only ever received merges (of different content), and a fresh one
+	m1, m2, s2, empty := k.build(c, 0), k.build(c, 0), k.build(c, 0), k.build(c, 0)
+	if m1 == nil || m2 == nil || s2 == nil || empty == nil {
+		return
+	}
+	k.feed(c, s2, append(append([]int(nil), h2...), 6, 7))
+	switch x := m1.(type) {
+	case hllHandle:
+		x.Merge(b.(hllHandle))
+		m2.(hllHandle).Merge(s2.(hllHandle))
+	case cmsHandle:
+		x.Merge(b.(cmsHandle))
+		m2.(cmsHandle).Merge(s2.(cmsHandle))
+	}
+	eqCheck(c, k, m1, m2, "merge-only-pair", h2)
+	eqCheck(c, k, m1, empty, "merge-only-vs-empty", h2)
+	eqCheck(c, k, m1, b, "merge-only-vs-source", h2)
 }
 
 func randHist(c *Ctx) []int {
